@@ -167,7 +167,7 @@ for name, f in DYA.items():
         return re.sub(r'\by\b', Y, s)
     out.append('//@ func (*$R).%s' % name + (' [also: (*$R).%s]' % TWIN[name] if name in TWIN else ''))
     out.append('//@   model split')
-    out.append('//@   requires RI_$R(c) && RIc(a) && RIc(b) && sep_$R(c, a) && sep_$R(c, b) && constNoVars(a) && constNoVars(b) && noRealloc_$R(c, a, b)')
+    out.append('//@   requires RI_$R(c) && RIc(a) && RIc(b) && sep_$R(c, a) && sep_$R(c, b) && constNoVars(a) && constNoVars(b)')
     if name == 'Div':
         out.append('//@   requires val(b) != 0')
     out.append('//@   panics_when order(a) >= 1 && order(b) >= 1 && nvars(a) != nvars(b)')
@@ -188,7 +188,7 @@ def instp(e, X='val(a)', Y='val(k)'):
     return re.sub(r'\by\b', Y, t)
 out.append('//@ func (*$R).Pow [also: (*$R).POW]')
 out.append('//@   model split')
-out.append('//@   requires RI_$R(c) && RIc(a) && RIc(k) && sep_$R(c, a) && sep_$R(c, k) && constNoVars(a) && constNoVars(k) && noRealloc_$R(c, a, k)')
+out.append('//@   requires RI_$R(c) && RIc(a) && RIc(k) && sep_$R(c, a) && sep_$R(c, k) && constNoVars(a) && constNoVars(k)')
 out.append('//@   requires val(a) > 0')
 out.append('//@   panics_when order(a) >= 1 && order(k) >= 1 && nvars(a) != nvars(k)')
 D2 = 'dyadicLazy|realDyadicLazy'
